@@ -101,6 +101,70 @@ def prove_overflow(bv, site, env):
     return None
 
 
+_SHRINKS = ("remove", "pop", "clear", "truncate", "drain", "retain", "retain_mut", "swap_remove", "dedup", "dedup_by", "dedup_by_key", "split_off",
+            "take", "replace", "swap", "set_len", "resize", "resize_with", "shrink_to", "extract_if")
+
+
+def _len_after_push(bv, lt):
+    """`lt` is the term of `Vec::len(&X)`: the call is immediately preceded (single-predecessor chain, nothing in between) by
+    `Vec::push(&mut X, _)` on the same place, so the length is >= 1.  Returns X's term or None."""
+    if not (lt[0] == "call" and lib.norm(lt[1]).endswith("Vec::<T, A>::len") and lt[2] and isinstance(lt[3], int)):
+        return None
+    x = strip(lt[2][0])
+    ps = [p for p in bv.pred[lt[3]] if p in bv.reach0]
+    if len(ps) != 1:
+        return None
+    pt = bv.blocks[ps[0]]["t"]
+    if pt["k"] == "call" and lib.norm(pt.get("callee") or "").endswith("Vec::<T, A>::push") and pt["args"] and strip(bv.trace_op(pt["args"][0])) == x:
+        return x
+    return None
+
+
+def _prove_len_minus_one(bv, site):
+    """Overflow(Sub) of `v.len() - 1` right after `v.push(..)`."""
+    ops = site["t"].get("ops", [])
+    if len(ops) != 2 or lib.term_const(bv.crate, strip(bv.trace_op(ops[1]))) != 1:
+        return None
+    if _len_after_push(bv, strip(bv.trace_op(ops[0]))) is not None:
+        return "len() - 1 immediately after push() on the same vector: the length is at least 1"
+    return None
+
+
+def _prove_index_found_or_last(bv, site):
+    """`v[i]` where every alternative of i is either the payload of `v.iter().position(..)` or `v.len() - 1` right after
+    `v.push(..)`, and nothing in the function shrinks v: both are in bounds."""
+    args = site["t"].get("args", [])
+    if len(args) < 2:
+        return None
+    x = strip(bv.trace_op(args[0]))
+    if x[0] != "field":
+        return None
+    ix = strip(bv.trace_op(args[1]))
+    alts = ix[1] if ix[0] == "phi" else [ix]
+    kinds = set()
+    for a in alts:
+        a = strip(a)
+        if a[0] == "field" and a[3] == 0 and strip(a[1])[0] == "downcast" and strip(a[1])[2] == "Some":
+            pc = strip(strip(a[1])[1])
+            if pc[0] == "call" and lib.norm(pc[1]) == "std::iter::Iterator::position" and pc[2]:
+                it = strip(pc[2][0])
+                if it[0] == "call" and lib.norm(it[1]).endswith(("::iter", "::iter_mut")) and x in [strip(y) for y in walk(it)]:
+                    kinds.add("position")
+                    continue
+            return None
+        if a[0] == "field" and a[3] == 0 and a[1][0] == "binop" and a[1][1] in ("SubWithOverflow", "Sub") and lib.term_const(bv.crate, strip(a[1][3])) == 1 \
+                and _len_after_push(bv, strip(a[1][2])) == x:
+            kinds.add("last-after-push")
+            continue
+        return None
+    for _, t in bv.calls():
+        if t["args"] and lib.norm(t.get("callee") or "").split("::")[-1] in _SHRINKS and x in [strip(y) for y in walk(bv.trace_op(t["args"][0]))]:
+            return None
+    if kinds:
+        return "index is %s of the same vector, which this function never shrinks" % " / ".join(sorted(kinds))
+    return None
+
+
 def run(F, R):
     sm = smod.get(F)
     c = sm.c
@@ -179,6 +243,8 @@ def run(F, R):
                 proof = prove_overflow(bv, s_, env_by_body[bv.id])
             if proof is None:
                 proof = _param_env_proof(W, reachable, bv, s_, env_by_body)
+            if proof is None and desc == "assert:Overflow(Sub)":
+                proof = _prove_len_minus_one(bv, s_)
         elif desc == "assert:OverflowNeg":
             proof = census.prove_neg_nonneg(bv, s_)
         elif desc in ("assert:DivisionByZero", "assert:RemainderByZero"):
@@ -200,6 +266,8 @@ def run(F, R):
             ix_ = strip(bv.trace_op(s_["t"]["args"][1]))
             if ix_[0] == "agg" and (ix_[2] or "").endswith("RangeFull"):
                 proof = "x[..]: the full range is in bounds for every length"
+        if proof is None and desc in ("api:IndexMut::index_mut", "api:Index::index"):
+            proof = _prove_index_found_or_last(bv, s_)
         if proof is not None:
             pass
         elif desc == "panic:begin_panic" and W.is_select_closure(bv.id):
@@ -239,6 +307,12 @@ def run(F, R):
         from . import c18 as _c18
         from .. import report as _report
         _c18.run(F, _report.SubsetAlias(R, {"C18-R4": "C14-R1"}, prefix="premise:C18-R4:", keys={"flag", "report-guarded-by-flag", "flag-set-only-if-finish-time"}))
+    # `app_install_results.remove(0)` is safe because one result is consumed exactly for the apps that were offered to the
+    # installer: the offered-update filter (C04-R2) and the per-app table of the result closure (C04-R3) use the same test
+    if any(k[0] == "api:Vec::remove" for k in used_allow):
+        from . import c04 as _c04
+        from .. import report as _report
+        _c04.run(F, _report.SubsetAlias(R, {"C04-R3": "C14-R1", "C04-R2": "C14-R1"}, prefix="premise:C04:", keys={"install-path-table", "offered-update-predicate"}))
     # third-party functions called from the covered code, against the set reviewed on the pinned tree (informational: a
     # new one has not been looked at for panics; census.PANIC_API lists the ones known to have a documented panic)
     try:
